@@ -336,14 +336,14 @@ int main()
 					ull h, L, probe; is >> h >> L >> probe;
 					if (b->pvGetCount() >= 4) { printf("Stuck;"); stuck = true; break; }
 					b->AddCrt(p4params(), Creator(), size_t(h), size_t(L), size_t(probe));
-					printP4(*b); printf(";");
+					printP4(*b); printf(" m%u%s;", unsigned(b->pvGetMemPoolIndex()), b->WasFull() ? "W" : "w");
 				}
 				else if (op == "r")
 				{
 					ull idx; is >> idx;
 					if (b->mPtrState.GetPointer() == nullptr || idx >= b->pvGetCount()) { printf("Stuck;"); stuck = true; break; }
 					b->Remove(p4params(), b->mPtrState.GetPointer() + idx, Replacer());
-					printP4(*b); printf(";");
+					printP4(*b); printf(" m%u%s;", unsigned(b->pvGetMemPoolIndex()), b->WasFull() ? "W" : "w");
 				}
 				else if (op == "g")
 				{
